@@ -170,7 +170,11 @@ def gen_model(rng, tag: str) -> tuple[dict, str, list[str]]:  # noqa: ANN001
 
     nvar = rng.randint(1, 4)
     hostile_names = rng.random() < 0.25
-    pool = HOSTILE_NAMES[:]
+    # "spelling only": names that need escaping (ASCII ones) in a model with numeric coefficients: the re-read model is
+    # known to spell them as identifiers and is compared with the original through that spelling
+    spelling_only = rng.random() < 0.15
+    hostile_names = hostile_names or spelling_only
+    pool = [n for n in HOSTILE_NAMES if n.isascii() or not spelling_only]
     rng.shuffle(pool)
 
     def mk(base: str) -> str:
@@ -195,12 +199,20 @@ def gen_model(rng, tag: str) -> tuple[dict, str, list[str]]:  # noqa: ANN001
         derived.append("dvar")
         eg.feats.add("derived_variable")
     if rng.random() < 0.25:
-        comps.append({"kind": "parameter", "name": "kia", "ia": {"fn": new_fn(2), "args": [rng.choice(params), rng.choice(variables)]}})
-        params.append("kia")
+        kia = mk("kia")
+        comps.append({"kind": "parameter", "name": kia, "ia": {"fn": new_fn(2), "args": [rng.choice(params), rng.choice(variables)]}})
+        params.append(kia)
         eg.feats.add("ia_parameter")
-    if rng.random() < 0.2:
-        comps.append({"kind": "variable", "name": "xia", "ia": {"fn": new_fn(2), "args": [rng.choice(params), rng.choice(variables)]}})
-        variables.append("xia")
+    if rng.random() < (0.6 if spelling_only else 0.2):
+        xia = mk("xia")
+        lead = [n for n in ("_u", "9lives") if n in pool]
+        if spelling_only and xia == "xia" and lead:
+            # (names that do not start with a letter are written with a prefix that depends on the kind of component)
+            xia = lead[0]
+            pool.remove(xia)
+            eg.feats.add("name_needs_escaping")
+        comps.append({"kind": "variable", "name": xia, "ia": {"fn": new_fn(2), "args": [rng.choice(params), rng.choice(variables)]}})
+        variables.append(xia)
         eg.feats.add("ia_variable")
     special = rng.choice(["none", "none", "none", "nested_call", "multi_statement", "docstring"])
     for j in range(rng.randint(1, 3)):
@@ -209,7 +221,7 @@ def gen_model(rng, tag: str) -> tuple[dict, str, list[str]]:  # noqa: ANN001
         kind = special if j == 0 and special != "none" else "expr"
         st = {}
         for v in rng.sample(variables, rng.randint(1, min(2, len(variables)))):
-            r = rng.random()
+            r = rng.random() * (0.65 if spelling_only else 1.0)
             if r < 0.45:
                 st[v] = rng.choice([-1, 1, -1.0, 1.0, 2, -2])
             elif r < 0.65:
@@ -335,7 +347,23 @@ def _roundtrip(spec: dict, tag: str, label: str, ctx: dict, feats: list[str], se
     missing = [n for n in orig_names if n not in names2]
     if missing:
         viols.append(core.viol(f"re-read model lacks original components under their names [{label}]", None, missing=missing, reread=sorted(names2)[:30], **ctx))
-        return viols, counters, True
+        # the identifiers the names are known to be turned into (known finding): only if every missing name is found under
+        # such an identifier does the comparison go on, name-blind; anything that differs then is more than a spelling
+        ren = {}
+        if any(not n.isascii() for n in orig_names) or any(f.startswith(("computed_coefficient", "named_coefficient")) for f in feats):
+            # (identifiers outside ASCII are escaped differently in different places of the written file, and so are the
+            # references a computed or named coefficient makes to such names: same finding)
+            return viols, counters, True
+        for n in missing:
+            cands = [c for c in SPELLINGS.get(n, []) if c in names2 and c not in orig_names]
+            if len(cands) != 1:
+                return viols, counters, True
+            ren[n] = cands[0]
+        if len(set(ren.values())) != len(ren):
+            return viols, counters, True
+        m2 = _Renamed(m2, ren)
+        counters["compared_name_blind_after_identifier_spelling"] = 1
+        ctx = dict(ctx, compared_name_blind=True)
     try:
         try:
             with np.errstate(over="raise", invalid="raise", divide="raise"):
@@ -414,6 +442,41 @@ def _roundtrip(spec: dict, tag: str, label: str, ctx: dict, feats: list[str], se
     return viols, counters, True
 
 
+SPELLINGS = {"x.1": ["x1"], "a-b": ["a_b"], "my var": ["my_var"], "_u": ["CPD__u", "PAR__u", "RXN__u", "AR__u"], "9lives": ["CPD_9lives", "PAR_9lives", "RXN_9lives", "AR_9lives"], "lambda": ["lambda_"],
+             "class": ["class_"], "k+1": ["kplus1"]}
+
+
+class _Renamed:
+    """The re-read model seen through the original names (ren: original name -> identifier it was turned into)."""
+
+    def __init__(self, m, ren: dict) -> None:  # noqa: ANN001
+        self.m, self.ren, self.inv = m, ren, {v: k for k, v in ren.items()}
+
+    def _out(self, x):  # noqa: ANN001, ANN202
+        if isinstance(x, dict):
+            return {self.inv.get(k, k): v for k, v in x.items()}
+        return x.rename(index=self.inv)
+
+    def _in(self, st):  # noqa: ANN001, ANN202
+        return None if st is None else {self.ren.get(k, k): v for k, v in st.items()}
+
+    @property
+    def ids(self):  # noqa: ANN201
+        return {self.inv.get(k, k) for k in self.m.ids}
+
+    def get_initial_conditions(self):  # noqa: ANN201
+        return self._out(self.m.get_initial_conditions())
+
+    def get_variable_names(self):  # noqa: ANN201
+        return [self.inv.get(k, k) for k in self.m.get_variable_names()]
+
+    def get_args(self, st=None, t=0.0):  # noqa: ANN001, ANN201
+        return self._out(self.m.get_args(self._in(st), t))
+
+    def get_right_hand_side(self, st=None, t=0.0):  # noqa: ANN001, ANN201
+        return self._out(self.m.get_right_hand_side(self._in(st), t))
+
+
 def plain_names(spec: dict) -> dict:
     """Twin: the same model with every name that needs escaping replaced by a plain identifier."""
     import copy
@@ -480,7 +543,10 @@ def run_case(case: dict) -> dict:
         tv, _tc, texp = _roundtrip(plain_names(spec), tag + "t", label, ctx, feats, case["seed"], root)
         if texp and not tv:
             for v in viols:
-                v["mechanism"] = "C08-names-not-python-identifiers"
+                # what the finding covers: the names come back spelled as identifiers, or the reader refuses two names that
+                # are spelled alike; a re-read model that differs in more than the spelling of its names is not covered
+                if not v["detail"].get("compared_name_blind") or v["what"].startswith("re-read model lacks original components under their names"):
+                    v["mechanism"] = "C08-names-not-python-identifiers"
             counters["twin_with_plain_names_round_trips"] = 1
     for f in feats:
         counters[f"feat:{f}"] = 1
